@@ -77,7 +77,9 @@ def describe(p: Program, folder: Folder, lm: LetterMap, ci: ClassInfo, am=None, 
     k.role = "module" if is_m else "vector" if is_v else None
     so, sf = p.class_attr_def(ci, "structure")
     k.structure_owner, k.structure_func = so, sf if isinstance(sf, FuncInfo) else None
-    mo, _ = p.class_attr_def(ci, "_match")
+    from .roles import match_slot
+
+    mo, _ = p.class_attr_def(ci, match_slot(p))
     k.match_owner = mo
     try:
         cutter = folder.class_const(ci, "cutter")
